@@ -83,7 +83,9 @@ static bool holder_queue_check(const struct cmi_heap_tag *a,
         ret = true;
     }
     else if (a->isortkey == b->isortkey) {
-        if (a->key > b->key) {
+        /* Among equals the most recent holder, by the running count kept in
+         * dsortkey, never by memory address */
+        if (a->dsortkey > b->dsortkey) {
             ret = true;
         }
     }
@@ -136,7 +138,8 @@ static void reprioritize_holder(struct cmi_holdable *rhp,
     const struct cmb_resourcepool *sp = (struct cmb_resourcepool *)rhp;
     const struct cmi_hashheap *hp = &(sp->holders);
     const uint64_t key = (uint64_t)pp;
-    cmi_hashheap_reprioritize(hp, key, 0.0, pri);
+    /* Keep the other sort key, the holder's place among equals */
+    cmi_hashheap_reprioritize(hp, key, cmi_hashheap_dkey(hp, key), pri);
 }
 
 /*
@@ -357,10 +360,11 @@ static void update_record(struct cmb_resourcepool *rpp,
         cmi_slist_push(&(pp->resources), &(hp->listhead));
 
         /* Not held already, create a new resource pool holder entry for the process */
+        const double arrival = (double)(hhp->item_counter + 1u);
         const uint64_t new_key = cmi_hashheap_enqueue(hhp,
                                                      (void *)pp, (void *)amount,
                                                      NULL, NULL,
-                                                     key, 0.0, pp->priority);
+                                                     key, arrival, pp->priority);
         cmb_assert_debug(new_key == key);
     }
 }
